@@ -538,7 +538,7 @@ def oracle(ctx, scale):
 def oracle_roundtrip(ctx, scale):
     rng = ctx.rng
     nprng = ctx.nprng()
-    for it in range(ctx.n(35, 500) * scale):
+    for it in range(ctx.n(150, 2000) * scale):
         kind, L = rand_lattice_float(rng, nprng)
         mp = gen_mesh(rng, ctx.n(30, 80))
         nk = mp[0] * mp[1] * mp[2]
@@ -621,7 +621,7 @@ def oracle_do_ws_dist(ctx, scale):
     """System_R.do_ws_dist (remap_XX_R): re-mapping an existing model with MDRS keeps every matrix at the mesh points"""
     from ..wbsys import rand_system
     rng = ctx.rng
-    for it in range(ctx.n(6, 40) * scale):
+    for it in range(ctx.n(20, 150) * scale):
         rs = np.random.RandomState(rng.getrandbits(31))
         nw = rng.randint(1, 3)
         mp = gen_mesh(rng, 27)
